@@ -681,7 +681,11 @@ def run(ctx, host=None):
         if isinstance(n, ast.If) and any(isinstance(x, (ast.Continue, ast.Break, ast.Return)) for x in n.body):
             nfilters += 1
             t = n.test
-            if not (isinstance(t, ast.UnaryOp) and isinstance(t.op, ast.Not) and isinstance(t.operand, ast.Call) and norm(t.operand.func) in ('self._is_valid_loose_prefix', 'self._is_valid_hashkey')):
+            config_branch = {x.attr for x in ast.walk(t) if isinstance(x, ast.Attribute)} <= {'loose_prefix_len'} and not any(isinstance(x, ast.Call) for x in ast.walk(t)) \
+                and {x.id for x in ast.walk(t) if isinstance(x, ast.Name)} <= {'self'}
+            if config_branch:
+                nfilters -= 1   # `if not self.loose_prefix_len: <flat case>; continue` selects the layout, it filters nothing
+            elif not (isinstance(t, ast.UnaryOp) and isinstance(t.op, ast.Not) and isinstance(t.operand, ast.Call) and norm(t.operand.func) in ('self._is_valid_loose_prefix', 'self._is_valid_hashkey')):
                 okll = False
     lds = [e for n, cal, effs in S.calls(ll) for e in effs if e[0] == 'LISTDIR']
     if not lds or not all(in_area(K, e[1], 'loose') for e in lds):
